@@ -13,8 +13,8 @@ CONSTANTS Messages <- MCMessages
           SzBig = 60
           SzErr = 40
           SzInv = 43
-          CallMethods = {"ret", "blk", "big", "err"}
-          NotifMethods = {"ret", "blk"}
+          CallMethods = {"ret", "blk", "big", "err", "nsub"}
+          NotifMethods = {"ret", "blk", "nsub"}
           InvIds = {0, 1}
           WithResp = TRUE
           MaxBatch = 2
